@@ -114,7 +114,23 @@ class P:
             else:
                 text = "".join(l + "\n" for l in lines)      # no delimiter: error
             lit.append("%s\t%s\t%s" % ("1" if dash else "0", hx(delim), hx(text)))
-        return [{"name": "literal-reader-model", "harness": "hdoc", "driver": "hdoc", "cases": lit,
+        # the expanding-body reader model (Lex/HeredocExp.v): unquoted delimiters, bodies of physical lines that end in a
+        # backslash (continued), hold backslash pairs, spell the delimiter after a continuation; no $ and no backquote
+        exp_cases = []
+        xpool = ["", "a", "E", " E", "E ", "\tE", "EE", "x y", "k\\", "\\", "E\\", "\\$x", "\\\\", "\\`", "\\a b", "a\\\\", "\t", "\tb", "\u00e9", "#c", "EO\\", "F", "\\\"q"]
+        for _ in range(4000 if tier == "quick" else 60000):
+            delim = rnd.choice(["E", "EOF", "\u00e9", "E", "EOF", "x1"])
+            dash = rnd.random() < 0.4
+            lines = [rnd.choice(xpool) for _ in range(rnd.randint(0, 6))]
+            k = rnd.random()
+            if k < 0.8:
+                text = "".join(l + "\n" for l in lines) + ("\t" * rnd.randint(0, 2) if dash and rnd.random() < 0.5 else "") + delim + rnd.choice(["\n", "\n", "\nrest\n", "", "\\\n"])
+            else:
+                text = "".join(l + "\n" for l in lines)      # no delimiter (unless a line spells it): error
+            exp_cases.append("%s\t%s\t%s\tu" % ("1" if dash else "0", hx(delim), hx(text)))
+        return [{"name": "expanding-reader-model", "harness": "hdoc", "driver": "hdoc", "cases": exp_cases,
+                 "nontrivial": lambda c: "5c0a" in c.split("\t")[2] or len(c.split("\t")[2]) > 6, "distribution": {"cases": len(exp_cases)}},
+                {"name": "literal-reader-model", "harness": "hdoc", "driver": "hdoc", "cases": lit,
                  "nontrivial": lambda c: len(c.split("\t")[2]) > 6, "distribution": {"cases": len(lit)}},
                 {"name": "heredocs", "harness": "heredoc", "driver": None, "cases": cases, "impl_ok": judge,
                  "nontrivial": lambda c: c.split("\t")[1] != "",
@@ -122,6 +138,8 @@ class P:
 
     def describe(self, part, case):
         f = case.split("\t")
+        if part == "expanding-reader-model":
+            return "here-document %s%s followed by %r" % ("<<-" if f[0] == "1" else "<<", unhx(f[1]).decode("utf-8", "replace"), unhx(f[2]).decode("utf-8", "replace"))
         if part == "literal-reader-model":
             return "here-document %s'%s' followed by %r" % ("<<-" if f[0] == "1" else "<<", unhx(f[1]).decode("utf-8", "replace"), unhx(f[2]).decode("utf-8", "replace"))
         exp = [tuple(unhx(x).decode("utf-8", "replace") for x in e.split("|")) for e in f[1].split(";")] if f[1] else []
@@ -132,7 +150,7 @@ class P:
 
     def replay(self, payload, C):
         c = payload["case"]
-        if payload.get("part") == "literal-reader-model":
+        if payload.get("part") in ("literal-reader-model", "expanding-reader-model"):
             i = C.run_harness("hdoc", [c])[0]
             m, _ = C.run_driver("hdoc", [c], [i])[0]
             print("case :", c, "\nimpl :", i, "\nmodel:", m)
